@@ -36,6 +36,7 @@ sub!(c15, "c15.rs");
 sub!(c17, "c17.rs");
 sub!(c06, "c06.rs");
 sub!(relay, "relay.rs");
+sub!(c16, "c16.rs");
 
 pub async fn main() -> Result<(), easy_error::Terminator> {
     let args: Vec<String> = std::env::args().collect();
@@ -60,6 +61,7 @@ pub async fn main() -> Result<(), easy_error::Terminator> {
         "c06" => c06::run(&mut out).await,
         "c01" => relay::run_c01(&mut out).await,
         "c04" => relay::run_c04(&mut out).await,
+        "c16" => c16::run(&mut out).await,
         _ => {
             eprintln!("unknown mode {}", mode);
             std::process::exit(2);
